@@ -485,6 +485,33 @@ func (x *X) external(fr *Frame, st *State, fn *ssa.Function, args []SV, cc *ssa.
 			x.vc.assume(mkImplies(x.enc.intCmp(token.LSS, argT(0), x.enc.intConst(0, i32), i32), mkNot(rets[0].(Term))))
 			x.enc.assumption("unicode/xid character classes contain no negative rune")
 		}
+		// the exact definitions of the code point classes of unicode/utf8 and utf16
+		{
+			i32 := types.Typ[types.Int32]
+			c := func(op token.Token, a Term, n int64) Term { return x.enc.intCmp(op, a, x.enc.intConst(n, i32), i32) }
+			switch name {
+			case "unicode/utf16.IsSurrogate":
+				r := argT(0)
+				x.vc.assume(mkEq(rets[0].(Term), mkAnd(c(token.GEQ, r, 0xD800), c(token.LSS, r, 0xE000))))
+				x.enc.assumption("utf16.IsSurrogate(r) == (0xD800 <= r < 0xE000)")
+			case "unicode/utf8.ValidRune":
+				r := argT(0)
+				x.vc.assume(mkEq(rets[0].(Term), mkAnd(c(token.GEQ, r, 0), c(token.LEQ, r, 0x10FFFF), mkNot(mkAnd(c(token.GEQ, r, 0xD800), c(token.LSS, r, 0xE000))))))
+				x.enc.assumption("utf8.ValidRune(r) == (0 <= r <= 0x10FFFF and r is no surrogate)")
+			case "unicode/utf8.RuneLen":
+				r := argT(0)
+				n := rets[0].(Term)
+				it := types.Typ[types.Int]
+				valid := mkAnd(c(token.GEQ, r, 0), c(token.LEQ, r, 0x10FFFF), mkNot(mkAnd(c(token.GEQ, r, 0xD800), c(token.LSS, r, 0xE000))))
+				x.vc.assume(mkImplies(mkNot(valid), mkEq(n, x.enc.intConst(-1, it))))
+				x.vc.assume(mkImplies(valid, mkAnd(x.enc.intCmp(token.GEQ, n, x.enc.intConst(1, it), it), x.enc.intCmp(token.LEQ, n, x.enc.intConst(4, it), it))))
+				x.enc.assumption("utf8.RuneLen(r) is 1..4 for a valid rune and -1 otherwise")
+			case "unicode/utf16.DecodeRune":
+				d := rets[0].(Term)
+				x.vc.assume(mkOr(mkEq(d, x.enc.intConst(0xFFFD, i32)), mkAnd(c(token.GEQ, d, 0x10000), c(token.LEQ, d, 0x10FFFF))))
+				x.enc.assumption("utf16.DecodeRune returns a code point in 0x10000..0x10FFFF or U+FFFD")
+			}
+		}
 		return rets
 	case "unicode/utf8.DecodeRune":
 		s := argT(0)
@@ -520,6 +547,15 @@ func (x *X) external(fr *Frame, st *State, fn *ssa.Function, args []SV, cc *ssa.
 		k := x.elemsKey(x.enc.intSortW(8))
 		st.mem[k] = x.vc.define("h", mkStore(x.get(st, k), base, x.vc.fresh("encoded", arraySort(isz, x.enc.intSortW(8)))))
 		x.enc.assumption("utf8.EncodeRune writes 1..4 bytes into its buffer and returns their number")
+		{
+			// as many as utf8.RuneLen says for a valid rune, three (U+FFFD) otherwise
+			r := argT(1)
+			it := types.Typ[types.Int]
+			rl := x.ufS("ext_"+sanitize("unicode/utf8.RuneLen")+"_r0", x.enc.sortOf(it), r)
+			x.vc.assume(mkImplies(x.enc.intCmp(token.GEQ, rl, x.enc.intConst(1, it), it), mkEq(n, rl)))
+			x.vc.assume(mkImplies(x.enc.intCmp(token.LSS, rl, x.enc.intConst(1, it), it), mkEq(n, x.ic(3))))
+			x.enc.assumption("utf8.EncodeRune(p, r) == utf8.RuneLen(r) for a valid rune, 3 otherwise")
+		}
 		return []SV{n}
 	case "unicode/utf8.DecodeRuneInString":
 		rets := pureUF("pure; returns (rune, width) with 0 <= width <= 4, width >= 1 for non-empty input, width <= len(s)")
